@@ -615,10 +615,14 @@ pub fn run(env: &Env) -> i32 {
             if sig.starts_with("resource:") || sig == "watchdog" || std::env::var("VERIF_NOMIN").is_ok() {
                 // each probe may cost a full CPU limit; report unminimised
                 b.case.clone()
-            } else if fails(&b.case) {
+            } else if fails(&b.case) || fails(&b.case) || fails(&b.case) {
                 minimise_case(&b.case, &mut fails, 600)
             } else {
-                harness_error(&format!("C01: violation {sig} at run {i} did not reproduce (nondeterminism leak)"));
+                // the crash was observed, so it is reported; that it does not show again under
+                // the same plan means it depends on something the seams do not own (a race
+                // between threads of the code under test, for instance)
+                v.detail.push_str("\n[did not reproduce in 3 replays of the same plan: not a function of the hash key, the clock and the file system alone]");
+                b.case.clone()
             }
         };
         v.replay = json!({"kind": "C01", "seed": seed, "index": i, "mode": b.mode, "signature": sig, "case": case});
